@@ -171,6 +171,9 @@ func (x *Exec) pass() {
 		x.assume(st, sx(append([]string{"distinct"}, names...)...))
 	}
 	x.holdAtEntry(st)
+	if fn.TypeParams().Len() > 0 || (fn.Signature.Recv() != nil && recvIsGeneric(fn.Signature.Recv().Type())) {
+		x.assumed[x.short+": verified on the generic body -- type parameters are opaque (their values are only moved, stored and compared by identity), so the result holds for every instantiation"] = true
+	}
 	// receiver is non-nil for pointer-receiver methods under contract (stated assumption: callers
 	// reach the method through a non-nil receiver; a nil receiver panics before any property matters)
 	x.entry.live = st.live
@@ -747,4 +750,12 @@ func (x *Exec) loopExitAssertions(b *ssa.BasicBlock, bst *State) {
 			}
 		}
 	}
+}
+
+func recvIsGeneric(t types.Type) bool {
+	if p, ok := t.(*types.Pointer); ok {
+		t = p.Elem()
+	}
+	n, ok := t.(*types.Named)
+	return ok && n.TypeArgs() != nil && n.TypeArgs().Len() > 0
 }
